@@ -17,7 +17,7 @@ MSGS = 'muscle::Thread::ThreadSpecificData::_messages'
 
 
 def run(res, tier):
-    fx = common.load_units(res, ['system/Thread.cpp', 'system/ThreadPool.cpp', 'util/SocketMultiplexer.cpp'], fn_regex=r'^muscle::(Thread|WaitCondition|SocketMultiplexer)(::|$)')
+    fx = common.load_units(res, ['system/Thread.cpp', 'system/ThreadPool.cpp', 'util/SocketMultiplexer.cpp'], fn_regex=r'^muscle::(Thread|WaitCondition|SocketMultiplexer|ICallbackMechanism)(::|$)')
     funcs = [f for f in fx.funcs.values() if f.full and (f.cls == TH or (f.cls or '').startswith(TH + '::'))]
     if len(funcs) < 30:
         raise AnalysisBroken('only %d Thread functions' % len(funcs))
@@ -271,6 +271,7 @@ def run(res, tier):
     res.ob('LIFECYCLE', f.where(), 'StartInternalThread signals the internal thread after starting it when Messages were already queued', ok, function=f.q, key='LIFECYCLE|%s|initial-signal' % f.q,
            message='Messages queued before StartInternalThread are not announced to the new thread: it sleeps with a non-empty queue')
     round3_rules(res, fx)
+    round5_rules(res, fx)
     # ---- FD-VALID: descriptor 0 is a valid descriptor
     res.rule('FD-VALID', 'in system/Thread.cpp a file descriptor (a value read with GetFileDescriptor()) is tested for validity against 0 only with `>= 0` / `< 0`: descriptor 0 is what a socket gets '
                          'in a process that has closed stdin', floor=2)
@@ -414,6 +415,86 @@ def round3_rules(res, fx):
                                'highest descriptor of the last non-empty set is never watched and the wake-up is lost')
     if n < 1:
         raise AnalysisBroken('NFDS-COVERS: no in-loop assignment to the bound of select() found in SocketMultiplexer::FDState::WaitForEvents')
+
+
+def round5_rules(res, fx):
+    # TIMEOUT-TOLERATED: with socket-pair signalling the wake-up byte can arrive after the Message it announces was already taken; the wait then wakes, finds nothing and reports B_TIMED_OUT
+    res.rule('TIMEOUT-TOLERATED', 'Thread::InternalThreadEntry leaves its loop because WaitForNextMessageFromOwner() failed only where the status was compared with B_TIMED_OUT and found different '
+                                  '(a late wake-up byte makes the wait report B_TIMED_OUT although no timeout was asked for)', floor=1)
+    f = fx.fn1(TH + '::InternalThreadEntry')
+    waits = P.calls(f, r'::WaitForNextMessageFromOwner$')
+    if not waits:
+        raise AnalysisBroken('TIMEOUT-TOLERATED: InternalThreadEntry does not call WaitForNextMessageFromOwner')
+    holders = set(v['d'] for v in f.walk() if v['k'] == 'VarDecl' and v['ch'] and any(x in waits for x in v['ch'][0].walk()))
+    def about_wait(a):
+        return any((x['k'] == 'DeclRefExpr' and x.get('d') in holders) or x in waits for x in a.walk())
+    n = 0
+    exits = []
+    for (h, body) in C.natural_loops(f):
+        if not any(P.pos_of(f, w)[0] in body for w in waits):
+            continue
+        for b in sorted(body):
+            blk = f.blocks[b]
+            for idx, s_ in enumerate(blk.succ):
+                if s_ is None or s_ < 0 or s_ in body:
+                    continue
+                atoms = list(G.atoms_at(f, b))
+                if blk.cond is not None and blk.cond in f.nodes and len(blk.succ) == 2:
+                    atoms += list(G.atoms_of_cond(f, f.nodes[blk.cond], idx == 0))
+                exits.append((b, atoms))
+    # exits through `return` inside the loop
+    for r in (x for x in f.walk() if x['k'] == 'ReturnStmt'):
+        exits.append((P.pos_of(f, r)[0], list(G.atoms_at(f, r))))
+    for (b, atoms) in exits:
+        failed = False
+        tolerated = False
+        for (a, t) in atoms:
+            core, pol = P.strip_not(a, t)
+            st = P.is_status_test(core) if core.is_call() else None
+            if st and ((st == 'err') == pol) and about_wait(core):
+                failed = True
+            if core.is_call() and (core.get('q') or '').split('::')[-1] in ('operator==', 'operator!=') and about_wait(core) \
+                    and any(x['k'] == 'DeclRefExpr' and (x.get('q') or '').endswith('::B_TIMED_OUT') for x in core.walk()):
+                is_eq = (core.get('q') or '').endswith('operator==')
+                if (is_eq and not pol) or (not is_eq and pol):
+                    tolerated = True
+        if not failed:
+            continue
+        n += 1
+        blk = f.blocks[b]
+        where = '%s:%s' % (f.file, f.nodes[blk.elems[0]].get('l') if blk.elems and isinstance(blk.elems[0], int) and blk.elems[0] in f.nodes else f.line)
+        res.ob('TIMEOUT-TOLERATED', where, 'InternalThreadEntry gives up after a failed wait only when the failure is not B_TIMED_OUT', tolerated, function=f.q, key='TIMEOUT-TOLERATED|%s|%d' % (f.q, n),
+               message='Thread::InternalThreadEntry leaves its loop on any error of WaitForNextMessageFromOwner(), B_TIMED_OUT included: when the owner\'s wake-up byte arrives after the internal thread '
+                       'already took the Message it announces, the next wait wakes, finds the queue empty and reports B_TIMED_OUT — the internal thread then exits unasked and every later Message '
+                       'stays in the queue, never received')
+    if n < 1:
+        raise AnalysisBroken('TIMEOUT-TOLERATED: no loop exit after a failed WaitForNextMessageFromOwner() found in InternalThreadEntry')
+    # CLEAR-FIRST: the dispatch side clears its pending flag BEFORE it collects the work, or a request made in between is recorded but never signalled
+    res.rule('CLEAR-FIRST', 'ICallbackMechanism::DispatchCallbacks resets _signalPending before it calls DispatchCallbacksImplementation() (a request made while dispatching must find the flag clear and '
+                            'signal again: senders signal only on the 0 -> 1 transition)', floor=1)
+    gs = [g for g in fx.funcs.values() if g.full and g.q == 'muscle::ICallbackMechanism::DispatchCallbacks']
+    if not gs:
+        raise AnalysisBroken('CLEAR-FIRST: ICallbackMechanism::DispatchCallbacks has no analysed body')
+    g = gs[0]
+    imp = P.calls(g, r'::DispatchCallbacksImplementation$')
+    def clears(c):
+        if not (c['k'] == 'CXXMemberCallExpr' and c.receiver() is not None and A.strip_casts(c.receiver()).get('n') == '_signalPending'):
+            return False
+        m = (c.get('q') or '').split('::')[-1]
+        args = c.args()
+        if m == 'SetCount':
+            return bool(args) and A.strip_casts(args[0]).get('v') == 0
+        if m in ('ConditionalSetCount', 'GetAndSetCount'):
+            return bool(args) and A.strip_casts(args[-1]).get('v') == 0
+        return False
+    clr = [c for c in g.walk() if c.is_call() and clears(c)]
+    if not imp:
+        raise AnalysisBroken('CLEAR-FIRST: DispatchCallbacks does not call DispatchCallbacksImplementation')
+    ok = bool(clr) and all(P.must_precede(g, clr, i) for i in imp)
+    res.ob('CLEAR-FIRST', g.where(imp[0]), 'the pending flag is cleared before the callbacks are collected', ok, function=g.q, key='CLEAR-FIRST|%s' % g.q, how='%d clearing call(s)' % len(clr),
+           message='ICallbackMechanism::DispatchCallbacks clears _signalPending only after DispatchCallbacksImplementation(): a reply sent by the internal thread after the owner drained the queue but '
+                   'before the flag is cleared finds the flag still set and sends no signal, then the flag is cleared — the reply is queued, nobody is woken, and because senders signal only on the '
+                   'first queued item no later reply is announced either')
 
 
 def early_return_edges(g):
